@@ -117,6 +117,7 @@ func bedWrite(k *K, b *bed.BED) []byte {
 	if !bytes.Equal(w.Bytes(), m) {
 		k.Failf("write-vs-marshal", "Write and MarshalText differ: %q vs %q", w.Bytes(), m)
 	}
+	writerZoo(k, []func(io.Writer) error{b.Write}, m)
 	txt := w.Bytes()
 	if len(txt) == 0 || txt[len(txt)-1] != '\n' || bytes.Count(txt, []byte("\n")) != 1 {
 		k.Failf("one-line", "record is not exactly one LF-terminated line: %q", txt)
@@ -149,6 +150,7 @@ func init() {
 			{Name: "fieldlens", TShards: 2, Run: lengthUnit("bed")},
 			{Name: "parallel", Race: true, Run: codecParallel("bed")},
 			{Name: "histories", Run: codecHistories("bed")},
+			firstCallUnit(firstCodec("bed")),
 		},
 	})
 }
